@@ -20,6 +20,9 @@ type Full struct {
 	VarsFree bool
 	// ExtraUnused adds, as a costed alternative, a declaration that nothing uses
 	ExtraUnused bool
+	// Unchecked also generates send-all statements whose source the checker rejects (unbounded
+	// accounts, bare allotments): texts an editor must still navigate
+	Unchecked bool
 }
 
 func (g *Full) vc() int {
@@ -279,7 +282,7 @@ func (g *Full) stmt() gen.Stmt {
 	case 0:
 		return &gen.Send{Sent: &gen.SentLit{E: g.expr("monetary", 2)}, Src: g.source(g.Depth, false), Dst: g.dest(g.Depth)}
 	case 1:
-		return &gen.Send{Sent: &gen.SentAll{Asset: g.expr("asset", 0)}, Src: g.source(g.Depth, true), Dst: g.dest(g.Depth)}
+		return &gen.Send{Sent: &gen.SentAll{Asset: g.expr("asset", 0)}, Src: g.source(g.Depth, !g.Unchecked), Dst: g.dest(g.Depth)}
 	case 2:
 		if g.pick(0, 1) == 0 {
 			return &gen.Save{Sent: &gen.SentLit{E: g.expr("monetary", 1)}, Acct: g.expr("account", 0)}
